@@ -1,5 +1,6 @@
 """C15 history independence: every operation of a random history over a pool of readers, one emulator
 and one xarray dataset on the same file must return what a freshly opened reader returns."""
+import os
 import random
 
 import numpy as np
@@ -9,7 +10,7 @@ from .. import env, files, oracles, reads
 ID, TITLE, LEVEL = 'C15', 'history independence', 'exploration'
 RULE = ('case = one history of 40-200 operations on one file over a pool {1-3 SgzReader opened by path with preload in '
         '{F,T} and chunk_cache_size in {1,2,default}; one segyio-style emulator (7 accessors on one handle); one xarray '
-        'dataset}, interleaved with open/close of other readers of the same file; operations biased to repeats, '
+        'dataset; one converter object (a reader subclass) that also exports / re-blocks the file between its reads}, interleaved with open/close of other readers of the same file; operations biased to repeats, '
         'alternation between two chunks and pairs differing in one argument; EVERY operation is compared (bytes, shape, '
         'exception type) with the same call on a freshly opened object (O-FRESH). distinct = distinct operation '
         'sequences; non-trivial = history observed at least one cache hit and one eviction or >= 2 objects used')
@@ -77,6 +78,8 @@ def header_ops(sp, rng, n):
             ops.append(('get_tracefield_1d', (rng.choice(sp.stored),)))
         elif k == 'hash':
             ops.append(('get_source_data_hash', ()))
+        elif k == 'bin':
+            ops.append(rng.choice([('get_file_binary_header', ()), ('get_file_text_header', ())]))
     return ops
 
 
@@ -115,7 +118,8 @@ def make_history(sp, rng, nops):
             base.append(('read_zslice_coord', (rng.choice(zs),)))
             lo = rng.randrange(len(zs))
             base.append(('get_trace_by_coord', (rng.randrange(sp.ntr), zs[lo], zs[rng.randrange(lo, len(zs))] + (zs[1] - zs[0]))))
-    objs = ['R0', 'R1', 'R2', 'E', 'E.acc'] + ([] if sp.is2d else ['X'])
+    # 'C': a converter object (a reader subclass) that also exports the file to SEG-Y between reads
+    objs = ['R0', 'R1', 'R2', 'E', 'E.acc'] + ([] if sp.is2d else ['X']) + (['C'] if sp.ntr <= 4000 else [])
     hist = []
     # directed prefixes on one reader: every stored header array loaded one way, then headers regenerated the other way (and back)
     mode = rng.randrange(4)
@@ -166,6 +170,10 @@ def make_history(sp, rng, nops):
             o = rng.choice(objs)
             if o == 'E.acc':
                 hist.append((o, emu_op(sp, rng)))
+            elif o == 'C':
+                r_ = rng.random()
+                wr = ['export'] + (['reblock'] if sp.rate == 2 and tuple(sp.bs) == (4, 4, 1024) else [])
+                hist.append((o, (rng.choice(wr), ()) if r_ < 0.2 else rng.choice([('get_file_binary_header', ()), ('get_file_text_header', ())]) if r_ < 0.4 else rng.choice(base)))
             elif o == 'X':
                 (a, b), (c, d), (e, f) = (reads.rand_range(sp.shape[0], sp.bs[0], rng), reads.rand_range(sp.shape[1], sp.bs[1], rng),
                                           reads.rand_range(sp.shape[2], sp.bs[2], rng))
@@ -216,6 +224,13 @@ def apply(obj_kind, obj, op):
             if name == 'trace_slice':
                 return ('ok', reads.norm([np.asarray(t) for t in obj.trace[a[0]:a[1]:a[2]]]))
             return ('ok', reads.norm(getattr(obj, name)[a[0]]))
+        if op[0] in ('export', 'reblock'):
+            tmp = SCRATCH[0].file('written-%d.out' % len(SCRATCH))
+            SCRATCH.append(tmp)
+            with env.quiet():
+                (obj.convert_to_segy if op[0] == 'export' else obj.convert_to_adv_sgz)(tmp)
+            os.remove(tmp)
+            return ('ok', 'written')
         if obj_kind == 'X':
             a = op[1]
             return ('ok', reads.norm(obj.data[a[0]:a[1], a[2]:a[3], a[4]:a[5]:a[6]].to_numpy()))
@@ -227,6 +242,7 @@ def apply(obj_kind, obj, op):
 # retention monitor: arrays returned by earlier reads of the history are kept (the objects themselves, as a caller would) and must still
 # hold what they held when they were returned, whatever is read afterwards
 RETAINED = []
+SCRATCH = []
 
 
 def run_case(case, ctx):
@@ -250,6 +266,9 @@ def run_case(case, ctx):
             pool['E'] = pool['E.acc'] = seismic_zfp.open(path, chunk_cache_size=rng.choice([1, 2, None]))
         elif name == 'X':
             pool['X'] = xr.open_dataset(path, engine='sgz_engine')
+        elif name == 'C':
+            from seismic_zfp.conversion import SgzConverter
+            pool['C'] = SgzConverter(path)
         return pool[name]
 
     fresh_memo = {}
@@ -266,6 +285,10 @@ def run_case(case, ctx):
                     fresh_memo[key] = apply(kind, ds, op)
                 finally:
                     ds.close()
+            elif op[0] in ('export', 'reblock'):
+                from seismic_zfp.conversion import SgzConverter
+                with SgzConverter(path) as c:
+                    fresh_memo[key] = apply('R', c, op)
             else:
                 with SgzReader(path) as r:
                     fresh_memo[key] = apply('R', r, op)
@@ -274,6 +297,8 @@ def run_case(case, ctx):
     bad, n, used = [], 0, set()
     kept = 0
     del RETAINED[:]
+    written = {}
+    SCRATCH[:] = [ctx['scratch']]
     trail = []
     for step, (o, op) in enumerate(hist):
         if o == 'ctl':
@@ -300,6 +325,10 @@ def run_case(case, ctx):
                 del RETAINED[:]
                 break
         exp = fresh(o, op)
+        if op[0] in ('export', 'reblock') and got[0] == 'ok':
+            written[op[0]] = written.get(op[0], 0) + 1
+        elif o == 'C' and written:
+            written['reads-after'] = written.get('reads-after', 0) + 1
         n += 1
         used.add(o)
         trail.append('%s.%s%s' % (o, op[0], op[1]))
@@ -342,7 +371,8 @@ def run_case(case, ctx):
         r.close()
     del RETAINED[:]
     return {'violations': bad, 'counters': {'ops_compared': n, 'retained_results_rechecked': kept, 'cache_hits': hits, 'cache_misses': misses,
-                                            'histories': 1, 'fresh_oracle_calls': len(fresh_memo)},
+                                            'histories': 1, 'fresh_oracle_calls': len(fresh_memo), 'converter_exports': written.get('export', 0), 'converter_reblocks': written.get('reblock', 0),
+                                            'converter_reads_after_writing': written.get('reads-after', 0)},
             'strata': sorted('obj:' + u for u in used) + ['cfg:preload' if any(c['preload'] for c in cfg.values()) else 'cfg:nopreload'] +
             ['cfg:ccs%s' % c['chunk_cache_size'] for c in cfg.values()] + ['kind:' + ('2d' if sp.is2d else 'irregular' if sp.ntr != sp.grid_traces else '3d')],
             'key': str(hash(tuple(map(str, hist)))), 'nontrivial': n >= 20 and len(used) >= 2}
@@ -355,7 +385,7 @@ def sample_view(case, res):
 
 def finalize(tier, cases, results, counters, strata):
     reasons = []
-    for s in ['obj:R0', 'obj:R1', 'obj:E', 'obj:E.acc', 'obj:X', 'cfg:preload', 'cfg:ccs1', 'cfg:ccs2', 'cfg:ccsNone',
+    for s in ['obj:R0', 'obj:R1', 'obj:E', 'obj:E.acc', 'obj:X', 'obj:C', 'cfg:preload', 'cfg:ccs1', 'cfg:ccs2', 'cfg:ccsNone',
               'kind:3d', 'kind:2d', 'kind:irregular']:
         if s not in strata:
             reasons.append('required stratum not hit: ' + s)
@@ -363,4 +393,6 @@ def finalize(tier, cases, results, counters, strata):
         reasons.append('no cache hit observed: warm paths not exercised')
     if counters.get('retained_results_rechecked', 0) == 0:
         reasons.append('retention monitor re-checked no earlier result')
+    if counters.get('converter_exports', 0) == 0 or counters.get('converter_reads_after_writing', 0) == 0:
+        reasons.append('no read through a converter object after it had exported the file')
     return {}, reasons
